@@ -979,6 +979,8 @@ impl Matcher {
 
     async fn run_restore(mut self, mut state_conn: CrConn, tripwire: Tripwire) {
         info!(sub_id = %self.id, "Restoring subscription");
+        #[cfg(feature = "verif")]
+        crate::verif::gate("sub-restore").await;
         let init_res = block_in_place(|| {
             self.last_rowid = self
                 .conn
